@@ -773,6 +773,24 @@ func ruleAndOrFold(p *Prog, r *Result) {
 		}
 		return "?"
 	}
+	// package functions that look for an aggregate call below a node
+	aggrProbe := map[*ssa.Function]bool{}
+	for _, f := range p.Funcs {
+		if f == fn || f.Signature.Results().Len() != 1 {
+			continue
+		}
+		if b, ok := f.Signature.Results().At(0).Type().Underlying().(*types.Basic); !ok || b.Kind() != types.Bool {
+			continue
+		}
+		if f.Signature.Params().Len() != 1 || typeName(f.Signature.Params().At(0).Type()) != "Expression" {
+			continue
+		}
+		for g := range p.Reach([]*ssa.Function{f}, nil) {
+			if g.Name() == "IsAggrFuncExpr" || g.Name() == "IsAggrFunc" {
+				aggrProbe[f] = true
+			}
+		}
+	}
 	kinds := []string{"true", "false", "expr"}
 	for _, op := range []struct {
 		name string
@@ -780,93 +798,112 @@ func ruleAndOrFold(p *Prog, r *Result) {
 	}{{"&", andOp}, {"|", orOp}} {
 		for _, lk := range kinds {
 			for _, rk := range kinds {
-				want := "same"
-				isAnd := op.name == "&"
-				switch {
-				case lk != "expr" && rk != "expr":
-					l, rr := lk == "true", rk == "true"
-					if isAnd {
-						want = fmt.Sprint(l && rr)
-					} else {
-						want = fmt.Sprint(l || rr)
-					}
-				case lk != "expr":
-					if (lk == "true") == isAnd {
-						want = "Right" // identity element
-					} else {
-						want = lk // absorbing
-					}
-				case rk != "expr":
-					if (rk == "true") == isAnd {
-						want = "Left"
-					} else {
-						want = rk
-					}
-				}
-				kindOf := map[string]string{"Left": lk, "Right": rk}
-				as := &assumption{p: p}
-				as.leaf = func(f *ssa.Function, v ssa.Value, bound map[*ssa.Parameter]string) (aval, bool) {
-					if f != fn {
-						return aval{}, false
-					}
-					if o, fl, base, ok := loadedField(v); ok && o != nil {
-						if o.Obj().Name() == "BinaryOpExpr" && fl == "Op" {
-							return aval{kind: 1, i: op.code}, true
-						}
-						if o.Obj().Name() == "BoolExpr" && fl == "Bool" {
-							if s := side(base, 0); s != "" && kindOf[s] != "expr" {
-								if kindOf[s] == "true" {
-									return aval{kind: 2, b: abTrue}, true
-								}
-								return aval{kind: 2, b: abFalse}, true
-							}
-						}
-					}
-					return aval{}, false
-				}
-				as.typeTest = func(f *ssa.Function, ta *ssa.TypeAssert, bound map[*ssa.Parameter]string) (abool, bool) {
-					if f != fn {
-						return abBoth, false
-					}
-					if _, isP := ta.X.(*ssa.Parameter); isP && typeName(deref(ta.AssertedType)) == "BinaryOpExpr" {
-						return abTrue, true
-					}
-					if s := side(ta.X, 0); s != "" {
-						if typeName(deref(ta.AssertedType)) == "BoolExpr" && kindOf[s] != "expr" {
-							return abTrue, true
-						}
-						return abFalse, true
-					}
-					return abBoth, false
-				}
-				as.bind = func(*ssa.Function, ssa.Value, map[*ssa.Parameter]string) string { return "" }
-				res := as.run(fn, map[*ssa.Parameter]string{})
-				var got []string
-				for _, ret := range res.rets {
-					if len(ret.Results) == 0 {
+				for _, withAggr := range []bool{false, true} {
+					if withAggr && (lk == "expr") == (rk == "expr") {
 						continue
 					}
-					c := classify(retVal(ret, 0), 0)
-					// a fresh literal built for one side of a two-literal fold still has to carry the right value
-					got = append(got, c)
-				}
-				sort.Strings(got)
-				okv := len(got) > 0
-				for _, g := range got {
-					if g != want {
-						// returning the operand itself is as good as a literal of its value
-						if v, isSide := kindOf[g]; isSide && v == want {
+					want := "same"
+					isAnd := op.name == "&"
+					switch {
+					case lk != "expr" && rk != "expr":
+						l, rr := lk == "true", rk == "true"
+						if isAnd {
+							want = fmt.Sprint(l && rr)
+						} else {
+							want = fmt.Sprint(l || rr)
+						}
+					case lk != "expr":
+						if (lk == "true") == isAnd {
+							want = "Right" // identity element
+						} else {
+							want = lk // absorbing
+						}
+					case rk != "expr":
+						if (rk == "true") == isAnd {
+							want = "Left"
+						} else {
+							want = rk
+						}
+					}
+					kindOf := map[string]string{"Left": lk, "Right": rk}
+					if withAggr && want != "Left" && want != "Right" {
+						// the operand that would be dropped holds an aggregate call: dropping it turns an aggregate
+						// field (one row per group) into a plain one (one row per pair), so the node stays
+						want = "same"
+					}
+					as := &assumption{p: p}
+					as.leaf = func(f *ssa.Function, v ssa.Value, bound map[*ssa.Parameter]string) (aval, bool) {
+						if f != fn {
+							return aval{}, false
+						}
+						if c, ok := v.(*ssa.Call); ok {
+							if g := c.Call.StaticCallee(); g != nil && aggrProbe[g] && len(c.Call.Args) == 1 {
+								if sd := side(stripConv(c.Call.Args[0]), 0); sd != "" && kindOf[sd] == "expr" {
+									if withAggr {
+										return aval{kind: 2, b: abTrue}, true
+									}
+									return aval{kind: 2, b: abFalse}, true
+								}
+							}
+						}
+						if o, fl, base, ok := loadedField(v); ok && o != nil {
+							if o.Obj().Name() == "BinaryOpExpr" && fl == "Op" {
+								return aval{kind: 1, i: op.code}, true
+							}
+							if o.Obj().Name() == "BoolExpr" && fl == "Bool" {
+								if s := side(base, 0); s != "" && kindOf[s] != "expr" {
+									if kindOf[s] == "true" {
+										return aval{kind: 2, b: abTrue}, true
+									}
+									return aval{kind: 2, b: abFalse}, true
+								}
+							}
+						}
+						return aval{}, false
+					}
+					as.typeTest = func(f *ssa.Function, ta *ssa.TypeAssert, bound map[*ssa.Parameter]string) (abool, bool) {
+						if f != fn {
+							return abBoth, false
+						}
+						if _, isP := ta.X.(*ssa.Parameter); isP && typeName(deref(ta.AssertedType)) == "BinaryOpExpr" {
+							return abTrue, true
+						}
+						if s := side(ta.X, 0); s != "" {
+							if typeName(deref(ta.AssertedType)) == "BoolExpr" && kindOf[s] != "expr" {
+								return abTrue, true
+							}
+							return abFalse, true
+						}
+						return abBoth, false
+					}
+					as.bind = func(*ssa.Function, ssa.Value, map[*ssa.Parameter]string) string { return "" }
+					res := as.run(fn, map[*ssa.Parameter]string{})
+					var got []string
+					for _, ret := range res.rets {
+						if len(ret.Results) == 0 {
 							continue
 						}
-						okv = false
+						c := classify(retVal(ret, 0), 0)
+						// a fresh literal built for one side of a two-literal fold still has to carry the right value
+						got = append(got, c)
 					}
+					sort.Strings(got)
+					okv := len(got) > 0
+					for _, g := range got {
+						if g != want {
+							// returning the operand itself is as good as a literal of its value
+							if v, isSide := kindOf[g]; isSide && v == want {
+								continue
+							}
+							okv = false
+						}
+					}
+					r.add(okv, fmt.Sprintf("%s|left=%s,right=%s%s", map[string]string{"&": "and", "|": "or"}[op.name], lk, rk, map[bool]string{true: "+aggr"}[withAggr]), p.Pos(fn.Pos()), fmt.Sprintf("(%s %s %s)%s must simplify to %s; reachable returns give %v", lk, op.name, rk, map[bool]string{true: " where the expression holds an aggregate call"}[withAggr], want, got))
 				}
-				r.add(okv, fmt.Sprintf("%s|left=%s,right=%s", map[string]string{"&": "and", "|": "or"}[op.name], lk, rk), p.Pos(fn.Pos()), fmt.Sprintf("(%s %s %s) must simplify to %s; reachable returns give %v", lk, op.name, rk, want, got))
 			}
 		}
 	}
 }
-
 
 // zeroGuarded: the return lies behind a test `x == 0` (division by zero is a data error, not an operand-type error).
 func zeroGuarded(ret *ssa.Return) bool {
@@ -1059,6 +1096,29 @@ func ruleRTPure(p *Prog, r *Result) {
 			})
 		}
 		r.add(bad == "", p.FName(fn), p.Pos(fn.Pos()), firstNonEmpty(bad, "computes the static type from the node's children without storing anything"))
+	}
+	// ... and types are static: neither ReturnType nor Check (nor the package helpers they call directly) evaluates
+	// an expression. An evaluation asks its operands for their types again, so typing by evaluating costs a
+	// constant factor per nesting level (exponential in the depth), and it runs parts of a statement that has not
+	// been checked yet
+	for _, fn := range p.Funcs {
+		if (fn.Name() != "ReturnType" && fn.Name() != "Check") || fn.Signature.Recv() == nil || len(fn.Blocks) == 0 {
+			continue
+		}
+		bad := ""
+		for _, f := range p.staticClosure(fn, 3, nil) {
+			allInstrs(f, func(in ssa.Instruction) {
+				ci, ok := in.(ssa.CallInstruction)
+				if !ok {
+					return
+				}
+				cc := ci.Common()
+				if cc.IsInvoke() && (cc.Method.Name() == "Execute" || cc.Method.Name() == "ExecuteBatch") && typeName(cc.Value.Type()) == "Expression" {
+					bad = fmt.Sprintf("%s evaluates an expression at %s", p.FName(f), p.InstrPos(in))
+				}
+			})
+		}
+		r.add(bad == "", p.FName(fn)+"|no-eval", p.Pos(fn.Pos()), firstNonEmpty(bad, "decides from the shape of the tree, without evaluating any of it"))
 	}
 	r.floor("ReturnType methods", n, 8)
 }
@@ -2643,7 +2703,6 @@ func ruleTokSeen(p *Prog, r *Result) {
 	r.floor("calls of next() in parser methods", n, 10)
 }
 
-
 // ---------------- FLOATLIT ----------------
 
 func init() {
@@ -2719,6 +2778,102 @@ func ruleFloatLit(p *Prog, r *Result) {
 		})
 	}
 	r.floor("float literals built by the folder", n, 2)
+	// ... and has a spelling at all: the language has no negative literal (`-` is a binary operator only) and no
+	// spelling for NaN or the infinities, so a computed value becomes a literal only behind a test that it is not
+	// negative (integers: value >= 0 on the edge; floats: a package predicate that consults math.Signbit or compares
+	// with zero, and math.IsNaN and math.IsInf)
+	floatPred := func(g *ssa.Function) bool {
+		sign, nan, inf := false, false, false
+		for _, f := range p.staticClosure(g, 2, nil) {
+			allInstrs(f, func(in ssa.Instruction) {
+				switch x := in.(type) {
+				case *ssa.Call:
+					switch p.calleeName(&x.Call) {
+					case "math.Signbit":
+						sign = true
+					case "math.IsNaN":
+						nan = true
+					case "math.IsInf":
+						inf = true
+					}
+				case *ssa.BinOp:
+					if x.Op == token.LSS || x.Op == token.GEQ || x.Op == token.GTR || x.Op == token.LEQ {
+						sign = true
+					}
+					if x.Op == token.NEQ && x.X == x.Y {
+						nan = true
+					}
+				}
+			})
+		}
+		return sign && nan && inf
+	}
+	nonNegative := func(v ssa.Value, at *ssa.BasicBlock) bool {
+		for d := 0; d < 3; d++ {
+			if cv, ok := v.(*ssa.Convert); ok {
+				v = cv.X
+				continue
+			}
+			break
+		}
+		for _, a := range dominatingAtoms(at) {
+			if a.X == v {
+				if c, ok := constIntOrFloatZero(a.Y); ok {
+					if (a.Op == token.GEQ && c == 0) || (a.Op == token.GTR && (c == 0 || c == -1)) {
+						return true
+					}
+				}
+			}
+			if c, ok := a.X.(*ssa.Call); ok {
+				bv, isB := constBool(a.Y)
+				if !isB || ((a.Op == token.EQL) == bv) == false {
+					continue
+				}
+				if g := c.Call.StaticCallee(); g != nil && p.InPkg(g) && len(c.Call.Args) == 1 && c.Call.Args[0] == v && floatPred(g) {
+					return true
+				}
+			}
+		}
+		return false
+	}
+	nv := 0
+	for _, fn := range p.methodsOf(ot) {
+		idx := 0
+		allInstrs(fn, func(in ssa.Instruction) {
+			st, ok := in.(*ssa.Store)
+			if !ok {
+				return
+			}
+			o, f, base, ok := fieldOfAddr(st.Addr)
+			if !ok || o == nil || !((o.Obj().Name() == "FloatExpr" && f == "Float") || (o.Obj().Name() == "NumberExpr" && f == "Int")) {
+				return
+			}
+			if _, fresh := base.(*ssa.Alloc); !fresh {
+				return
+			}
+			if _, isConst := st.Val.(*ssa.Const); isConst {
+				return
+			}
+			nv++
+			idx++
+			r.add(nonNegative(st.Val, st.Block()), fmt.Sprintf("%s|%s.%s#%d|spellable", p.FName(fn), o.Obj().Name(), f, idx), p.InstrPos(st), "a computed value becomes a literal only when the language can spell it: not negative, not NaN, not infinite (otherwise the statement shown by EXPLAIN cannot be read back)")
+		})
+	}
+	r.floor("numeric literals built by the folder from computed values", nv, 4)
+}
+
+// constIntOrFloatZero: the constant's value as an integer when it is an integer or an integral float.
+func constIntOrFloatZero(v ssa.Value) (int64, bool) {
+	if k, ok := constInt(v); ok {
+		return k, true
+	}
+	if c, ok := v.(*ssa.Const); ok && c.Value != nil && c.Value.Kind() == constant.Float {
+		f, _ := constant.Float64Val(c.Value)
+		if f == float64(int64(f)) {
+			return int64(f), true
+		}
+	}
+	return 0, false
 }
 
 // ---------------- REORDERKIND ----------------
@@ -2734,56 +2889,82 @@ func ruleReorderKind(p *Prog, r *Result) {
 		return
 	}
 	isExprT := func(tt types.Type) bool { return typeName(tt) == "Expression" }
-	guardOK := map[*ssa.Function]string{}
-	checkGuard := func(g *ssa.Function) string {
-		if m, ok := guardOK[g]; ok {
-			return m
-		}
+	guardOK := map[string]string{}
+	// checkGuard: g is called at `site`; its Expression arguments loaded from a Right field are the two constants,
+	// one loaded from a Left field is the operand the constants are re-associated away from
+	checkGuard := func(g *ssa.Function, site *ssa.Call) string {
 		var ps []*ssa.Parameter
-		for _, pa := range g.Params {
-			if isExprT(pa.Type()) {
+		var operand *ssa.Parameter
+		roles := ""
+		for i, pa := range g.Params {
+			if !isExprT(pa.Type()) || i >= len(site.Call.Args) {
+				continue
+			}
+			_, fl, _, ok := loadedField(stripConv(site.Call.Args[i]))
+			switch {
+			case ok && fl == "Left" && operand == nil:
+				operand = pa
+				roles += "o"
+			default:
 				ps = append(ps, pa)
+				roles += "c"
 			}
 		}
+		ck := p.FName(g) + "/" + roles
+		if m, ok := guardOK[ck]; ok {
+			return m
+		}
 		if len(ps) != 2 || g.Signature.Results().Len() != 1 {
-			guardOK[g] = "not a predicate of two expressions"
-			return guardOK[g]
+			guardOK[ck] = "not a predicate of two constants (and the operand)"
+			return guardOK[ck]
 		}
 		nodeOf := map[string]string{"text": "StringExpr", "int": "NumberExpr", "float": "FloatExpr"}
 		bad := ""
+		runWith := func(bindings map[*ssa.Parameter]string, what string) {
+			as := &assumption{p: p}
+			as.leaf = func(*ssa.Function, ssa.Value, map[*ssa.Parameter]string) (aval, bool) { return aval{}, false }
+			as.typeTest = func(f *ssa.Function, ta *ssa.TypeAssert, bound map[*ssa.Parameter]string) (abool, bool) {
+				pa, ok := stripConv(ta.X).(*ssa.Parameter)
+				if !ok || bound[pa] == "" {
+					return abBoth, false
+				}
+				if typeName(deref(ta.AssertedType)) == nodeOf[bound[pa]] {
+					return abTrue, true
+				}
+				return abFalse, true
+			}
+			as.bind = func(f *ssa.Function, arg ssa.Value, bound map[*ssa.Parameter]string) string {
+				if pa, ok := stripConv(arg).(*ssa.Parameter); ok {
+					return bound[pa]
+				}
+				return ""
+			}
+			res := as.run(g, bindings)
+			for _, ret := range res.rets {
+				ev := res.ev(retVal(ret, 0))
+				if !(ev.kind == 2 && ev.b == abFalse) {
+					bad = fmt.Sprintf("%s can be true for %s (%s)", g.Name(), what, p.InstrPos(ret))
+				}
+			}
+		}
 		for _, k1 := range []string{"text", "int", "float"} {
 			for _, k2 := range []string{"text", "int", "float"} {
 				if k1 == k2 && k1 != "float" {
 					continue
 				}
-				as := &assumption{p: p}
-				as.leaf = func(*ssa.Function, ssa.Value, map[*ssa.Parameter]string) (aval, bool) { return aval{}, false }
-				as.typeTest = func(f *ssa.Function, ta *ssa.TypeAssert, bound map[*ssa.Parameter]string) (abool, bool) {
-					pa, ok := stripConv(ta.X).(*ssa.Parameter)
-					if !ok || bound[pa] == "" {
-						return abBoth, false
-					}
-					if typeName(deref(ta.AssertedType)) == nodeOf[bound[pa]] {
-						return abTrue, true
-					}
-					return abFalse, true
-				}
-				as.bind = func(f *ssa.Function, arg ssa.Value, bound map[*ssa.Parameter]string) string {
-					if pa, ok := stripConv(arg).(*ssa.Parameter); ok {
-						return bound[pa]
-					}
-					return ""
-				}
-				res := as.run(g, map[*ssa.Parameter]string{ps[0]: k1, ps[1]: k2})
-				for _, ret := range res.rets {
-					ev := res.ev(retVal(ret, 0))
-					if !(ev.kind == 2 && ev.b == abFalse) {
-						bad = fmt.Sprintf("%s can be true for a %s and a %s constant (%s)", g.Name(), k1, k2, p.InstrPos(ret))
-					}
-				}
+				runWith(map[*ssa.Parameter]string{ps[0]: k1, ps[1]: k2}, fmt.Sprintf("a %s and a %s constant", k1, k2))
 			}
 		}
-		guardOK[g] = bad
+		// two integer constants may only be combined when the operand they are taken away from is an integer too:
+		// float arithmetic rounds after every step, (x * 10) * 10 is not x * 100
+		b := map[*ssa.Parameter]string{ps[0]: "int", ps[1]: "int"}
+		what := "two integer constants whatever the operand they are re-associated away from is (the guard does not see it)"
+		if operand != nil {
+			b[operand] = "float"
+			what = "two integer constants next to a float operand"
+		}
+		runWith(b, what)
+		guardOK[ck] = bad
 		return bad
 	}
 	n := 0
@@ -2833,7 +3014,7 @@ func ruleReorderKind(p *Prog, r *Result) {
 						if g == nil || !p.InPkg(g) {
 							continue
 						}
-						if m := checkGuard(g); m == "" {
+						if m := checkGuard(g, c); m == "" {
 							m1 = ""
 						} else if m1 != "" {
 							m1 = m
@@ -2843,7 +3024,7 @@ func ruleReorderKind(p *Prog, r *Result) {
 						msg = m1
 					}
 				}
-				r.add(msg == "", fmt.Sprintf("%s|rewrite#%d", p.FName(fn), idx), p.InstrPos(st), firstNonEmpty(msg, "the rewrite is made only for two texts or two integer constants"))
+				r.add(msg == "", fmt.Sprintf("%s|rewrite#%d", p.FName(fn), idx), p.InstrPos(st), firstNonEmpty(msg, "the rewrite is made only for two texts, or for two integer constants next to an operand that is not a float"))
 			})
 		}
 		handle(fn, func(st *ssa.Store) []*ssa.BasicBlock { return []*ssa.BasicBlock{st.Block()} })
@@ -3012,7 +3193,6 @@ func ruleTwinErr(p *Prog, r *Result) {
 	}
 	r.floor("operator twins calling comparison helpers", n, 4)
 }
-
 
 // isCompareHelperCall: a call of a package-level exec*Compare function, directly or through a function value that
 // can only hold such functions (`compare := execStringCompare; if number { compare = execNumberCompare }`).
